@@ -148,15 +148,19 @@ def run_batch(ctx, case):
     n, shape, strs, ks = case['n'], tuple(case['shape']), case['strs'], case['ks']
     ctx.note(klass=f'ndim={len(shape)}', desc=['batch', n > 8, list(shape)], nontrivial=(len(shape) >= 2 or any(ks)),
              labels=[f'ndim={len(shape)}', 'n>16' if n > 16 else 'n<=16'])
-    arr_s = np.array(strs, dtype=f'U{n}').reshape(shape)
-    signs = np.array([ref.PHASE[k] for k in ks]).reshape(shape)
+    LAY = ['C', 'F', 'strided', 'readonly', 'reversed']
+    layout = LAY[(sum(ks) + n + 3 * len(strs) + sum(ord(c) for c in strs[0])) % len(LAY)]
+    ctx.label('layout=' + layout)
+    L = lambda a: ref.with_layout(a, layout)  # noqa: E731  same values, other strides: batched conversions must not depend on memory order
+    arr_s = L(np.array(strs, dtype=f'U{n}').reshape(shape))
+    signs = L(np.array([ref.PHASE[k] for k in ks]).reshape(shape))
     idx_ref = [ref.pauli_index(s) for s in strs]
     f2_ref = np.array([ref.pauli_to_F2((k, s)) for k, s in zip(ks, strs)], dtype=np.uint8).reshape(shape + (2 * n + 2,))
     f2_ref0 = np.array([ref.pauli_to_F2((0, s)) for s in strs], dtype=np.uint8).reshape(shape + (2 * n + 2,))
     # str <-> index
     idx = nq.gate.pauli_str_to_index(arr_s)
     ctx.require(idx.shape == shape and [int(x) for x in idx.reshape(-1)] == idx_ref, 'batch str_to_index')
-    idx_arr = np.array(idx_ref, dtype=np.uint64).reshape(shape)
+    idx_arr = L(np.array(idx_ref, dtype=np.uint64).reshape(shape))
     s_back = nq.gate.pauli_index_to_str(idx_arr, n)
     ctx.require(s_back.shape == shape and s_back.reshape(-1).tolist() == strs, 'batch index_to_str')
     # index <-> F2
@@ -164,10 +168,12 @@ def run_batch(ctx, case):
     ctx.require(f2.shape == f2_ref0.shape and np.array_equal(f2, f2_ref0), 'batch index_to_F2')
     f2 = nq.gate.pauli_index_to_F2(idx_arr, n, with_sign=False)
     ctx.require(np.array_equal(f2, f2_ref0[..., 2:]), 'batch index_to_F2 nosign')
+    f2_c = f2_ref
+    f2_ref = L(f2_ref)
     ib = nq.gate.pauli_F2_to_index(f2_ref, with_sign=True)
     ctx.require(np.shape(ib) == shape and [int(x) for x in np.asarray(ib).reshape(-1)] == idx_ref, 'batch F2_to_index',
                 f'{np.asarray(ib).reshape(-1).tolist()} vs {idx_ref}')
-    ib = nq.gate.pauli_F2_to_index(np.ascontiguousarray(f2_ref[..., 2:]), with_sign=False)
+    ib = nq.gate.pauli_F2_to_index(L(np.ascontiguousarray(f2_ref[..., 2:])), with_sign=False)
     ctx.require([int(x) for x in np.asarray(ib).reshape(-1)] == idx_ref, 'batch F2_to_index nosign')
     # str <-> F2
     f2 = nq.gate.pauli_str_to_F2(arr_s, signs)
@@ -175,6 +181,8 @@ def run_batch(ctx, case):
     s2, sg2 = nq.gate.pauli_F2_to_str(f2_ref)
     ctx.require(s2.shape == shape and s2.reshape(-1).tolist() == strs, 'batch F2_to_str string')
     ctx.close(sg2, signs, 1e-12, 'batch F2_to_str sign')
+    ctx.require(np.array_equal(f2_ref, f2_c) and np.array_equal(idx_arr.reshape(-1), np.array(idx_ref, dtype=np.uint64)) and arr_s.reshape(-1).tolist() == strs,
+                'batched conversions do not modify their arguments')
     # element-wise equality with the single-item API
     for j, (k, s) in enumerate(zip(ks, strs)):
         one = nq.gate.pauli_str_to_F2(s, ref.PHASE[k])
@@ -214,6 +222,6 @@ SUBCHECKS = [
     SubCheck('exh_pairs', run_exh_pairs, cases=cases_exh_pairs, shards=(4, 16),
              doc='all ordered pairs n<=2 (quick) / n<=3 (thorough): product, commutation vs string algebra and dense'),
     SubCheck('rand_ops', run_rand_ops, strategy=_strat_rand, examples=(600, 4000)),
-    SubCheck('batch', run_batch, strategy=_strat_batch, examples=(400, 3000), floors={'ndim=2': 0.1}),
+    SubCheck('batch', run_batch, strategy=_strat_batch, examples=(400, 3000), floors={'ndim=2': 0.1, 'layout=F': 0.08, 'layout=reversed': 0.08}),
     SubCheck('rand_pauli', run_randpauli, strategy=_strat_randpauli, examples=(500, 4000)),
 ]
